@@ -253,6 +253,46 @@ theorem never_uncaught_eof (cfg : Cfg) (segs : List Str) : Ev.uncaught ∉ (eof 
   · exact unc_emit _ _ (by simp) h
   · exact unc_emit _ _ (by simp) h
 
+/-! ## 2. chunked framing is strict (one step of the machine, any buffer) -/
+
+/-- `parse_hex_int` accepts exactly the non-empty strings of hex digits -/
+theorem parseHexInt_none_iff (l : Str) : parseHexInt l = none ↔ (l = [] ∨ l.all isHexDigit = false) := by
+  unfold parseHexInt
+  cases l with
+  | nil => simp
+  | cons c cs =>
+    by_cases h : (c :: cs).all isHexDigit = true
+    · simp [h]
+    · simp only [Bool.not_eq_true] at h
+      simp [h]
+
+/-- a size line that is not `[0-9A-Fa-f]+` (empty, sign, `0x`, extension, space, non-ASCII …) ⇒ 400 + close -/
+theorem chunked_strict_size (cfg : Cfg) (s : St) (total loc : Nat) (hp : s.phase = .chunkSize total)
+    (hloc : findCrlf s.buf = some loc) (hshort : loc + 2 ≤ chunkLineMax)
+    (hbad : parseHexInt (s.buf.take loc) = none) : step cfg s = some (reject400 s true) := by
+  have : ¬ loc + 2 > chunkLineMax := by omega
+  simp [step, hp, stepChunkSize, hloc, this, hbad]
+
+/-- a size line (with its CRLF) longer than 64 bytes ⇒ the connection is closed -/
+theorem chunked_size_line_too_long (cfg : Cfg) (s : St) (total loc : Nat) (hp : s.phase = .chunkSize total)
+    (hloc : findCrlf s.buf = some loc) (hlong : loc + 2 > chunkLineMax) : step cfg s = some (closeSilent s true) := by
+  simp [step, hp, stepChunkSize, hloc, hlong]
+
+/-- chunk data not followed by CRLF ⇒ 400 + close (after the `fix:` commit; it was an `assert`) -/
+theorem chunked_strict_terminator (cfg : Cfg) (s : St) (total a b : Nat) (rest : Str)
+    (hp : s.phase = .chunkCrlf total) (hb : s.buf = a :: b :: rest) (hbad : ¬ (a = 13 ∧ b = 10)) :
+    step cfg s = some (reject400 s true) := by
+  simp [step, hp, stepChunkCrlf, hb, hbad]
+
+/-- the last chunk `0 CRLF` not followed by CRLF (e.g. a trailer) ⇒ 400 + close -/
+theorem chunked_strict_last_terminator (cfg : Cfg) (s : St) (a b : Nat) (rest : Str)
+    (hp : s.phase = .lastCrlf) (hb : s.buf = a :: b :: rest) (hbad : ¬ (a = 13 ∧ b = 10)) :
+    step cfg s = some (reject400 s true) := by
+  simp [step, hp, stepLastCrlf, hb, hbad]
+
+example : parseHexInt [49, 59, 120] = none := by decide      -- "1;x" (chunk extension)
+example : parseHexInt [49, 97, 70] = some 0x1aF := by decide
+
 /-! ## tie-only goals (stated, not proved) -/
 
 /-- the incremental machine on the whole stream agrees with the batch reader `Spec.readAll` (finished requests and
